@@ -36,14 +36,14 @@ type pathElem struct {
 }
 
 type Loc struct {
-	Kind  int
-	Alloc *ssa.Alloc
-	Comp  string     // component name
-	Ref   string     // object / base reference
-	Idx   string     // lElem: absolute index
-	Root  types.Type // type stored in the cell (before Path)
-	Path  []pathElem
-	Typ   types.Type // type of the designated location (after Path)
+	Kind   int
+	Alloc  *ssa.Alloc
+	Comp   string     // component name
+	Ref    string     // object / base reference
+	Idx    string     // lElem: absolute index
+	Root   types.Type // type stored in the cell (before Path)
+	Path   []pathElem
+	Typ    types.Type // type of the designated location (after Path)
 	Struct types.Type // lField: the struct type the field belongs to
 	Field  string
 	Global *ssa.Global
@@ -51,10 +51,10 @@ type Loc struct {
 
 // State: versions of every mutable thing on the current path.
 type State struct {
-	cells map[*ssa.Alloc]string // local variable cells
-	heap  map[string]string     // component -> version term
-	ghost map[string]string     // ghost cells
-	epoch int                   // heap epoch: a component not in heap is <name>@<epoch>
+	cells  map[*ssa.Alloc]string // local variable cells
+	heap   map[string]string     // component -> version term
+	ghost  map[string]string     // ghost cells
+	epoch  int                   // heap epoch: a component not in heap is <name>@<epoch>
 	defer_ map[*ssa.Defer]string // Bool: registered?
 	dargs  map[*ssa.Defer][]Val  // argument values captured by the defer
 }
